@@ -4,6 +4,9 @@
 //! gcd.  Spaces:
 //!   * box      — every (a/b, c/d) with a,b,c,d in [-B, B], b,d != 0 (quick B=8, thorough B=16);
 //!   * boundary — every quadruple over a boundary set of magnitudes up to 2^30 (numerators also 0);
+//!   * chains   — every ordered pair of operands u/v whose components are neighbouring Fibonacci / Lucas
+//!                numbers up to 2^30 (the worst case of Euclid's algorithm: the operator results hand
+//!                `norm` pairs with remainder chains of up to 84 steps, more than the bit width of i32/i64);
 //!   * triples  — every ordered triple of the distinct values of the box (order laws).
 //! Operands are always built with the real `Rational::new(a, b)` from the raw pair.  A case whose exact
 //! intermediates (the cross products / sums the implementation forms on the normalised operands) do not
@@ -79,6 +82,27 @@ fn euclid(mut a: u128, mut b: u128) -> u128 {
         b = t;
     }
     a
+}
+
+/// Number of iterations of the plain remainder loop `while b != 0 { a %= b; swap(a, b) }` started at
+/// (|a|, |b|): the length of the Euclidean chain a gcd routine has to walk for this pair.
+fn euclid_steps(a: i128, b: i128) -> u32 {
+    let (a, b) = (a.unsigned_abs(), b.unsigned_abs());
+    let mut n = 0;
+    if a <= u64::MAX as u128 && b <= u64::MAX as u128 {
+        let (mut a, mut b) = (a as u64, b as u64);
+        while b != 0 {
+            (a, b) = (b, a % b);
+            n += 1;
+        }
+    } else {
+        let (mut a, mut b) = (a, b);
+        while b != 0 {
+            (a, b) = (b, a % b);
+            n += 1;
+        }
+    }
+    n
 }
 
 fn g(a: i128, b: i128) -> i128 {
@@ -567,6 +591,9 @@ const NV_NAMES: [&str; 16] = [
     "both_denominators_negative",
 ];
 
+/// entry points whose (numerator, denominator) pair goes through `norm`, i.e. through gcd
+const CHAIN_ENTRY: [&str; 5] = ["new", "add", "sub", "mul", "div"];
+
 #[derive(Clone)]
 struct Acc {
     singles: u64,
@@ -578,6 +605,10 @@ struct Acc {
     zero_div: u64,
     nontrivial: u64,
     nv: [u64; 16],
+    /// longest Euclidean chain of a pair handed to `norm`, by entry point (CHAIN_ENTRY), over evaluated cases
+    chain_max: [u32; 5],
+    /// evaluated entry-point calls whose pair has a chain longer than 32 / 64 steps
+    chain_over: [u64; 2],
     first: Vec<Option<FailRec>>,
     results: BTreeSet<(i64, i64)>,
 }
@@ -594,6 +625,8 @@ impl Acc {
             zero_div: 0,
             nontrivial: 0,
             nv: [0; 16],
+            chain_max: [0; 5],
+            chain_over: [0; 2],
             first: vec![None; NFAM],
             results: BTreeSet::new(),
         }
@@ -617,6 +650,12 @@ impl Acc {
         self.nontrivial += o.nontrivial;
         for i in 0..self.nv.len() {
             self.nv[i] += o.nv[i];
+        }
+        for i in 0..self.chain_max.len() {
+            self.chain_max[i] = self.chain_max[i].max(o.chain_max[i]);
+        }
+        for i in 0..self.chain_over.len() {
+            self.chain_over[i] += o.chain_over[i];
         }
         for f in o.first.into_iter().flatten() {
             self.offer(f);
@@ -653,6 +692,13 @@ impl Acc {
             }
         }
     }
+    /// note the chain of the pair (n, d) that entry point `entry` (index into CHAIN_ENTRY) hands to `norm`
+    fn chain(&mut self, entry: usize, n: i128, d: i128) {
+        let st = euclid_steps(n, d);
+        self.chain_max[entry] = self.chain_max[entry].max(st);
+        self.chain_over[0] += (st > 32) as u64;
+        self.chain_over[1] += (st > 64) as u64;
+    }
     fn total_evals(&self) -> u64 {
         self.evals.iter().sum()
     }
@@ -671,6 +717,10 @@ impl Acc {
         for (i, n) in NV_NAMES.iter().enumerate() {
             nv.insert(n.to_string(), json!(self.nv[i]));
         }
+        let mut chain = serde_json::Map::new();
+        for (i, n) in CHAIN_ENTRY.iter().enumerate() {
+            chain.insert(n.to_string(), json!(self.chain_max[i]));
+        }
         json!({
             "operands": self.singles,
             "operand_pairs": self.pairs,
@@ -682,6 +732,9 @@ impl Acc {
             "distinct_result_values": self.results.len(),
             "families": Value::Object(fams),
             "situations_reached": Value::Object(nv),
+            "longest_euclid_chain_handed_to_norm": Value::Object(chain),
+            "norm_calls_with_chain_over_32_steps": self.chain_over[0],
+            "norm_calls_with_chain_over_64_steps": self.chain_over[1],
         })
     }
 }
@@ -695,6 +748,7 @@ fn single<T: Int>(acc: &mut Acc, a: i128, b: i128, space: &'static str) {
     if b == 1 {
         acc.record::<T>(Fam::NewInt, space, &[a], check_case::<T>(Fam::NewInt, &[a]));
     }
+    acc.chain(0, a, b);
     let (p, q) = reduce(a, b);
     acc.nv[0] += (b < 0 && g(a, b) > 1) as u64;
     acc.nv[2] += (p < 0 && q == 1) as u64;
@@ -753,6 +807,7 @@ fn pair<T: Int>(acc: &mut Acc, fams: &[Fam], a: i128, b: i128, c: i128, d: i128,
             if in_range::<T>(inter) {
                 let needs = g(*n, *dd) > 1 || *dd < 0;
                 work |= needs;
+                acc.chain(1 + k, *n, *dd);
                 if k == 0 {
                     acc.nv[13] += needs as u64;
                 }
@@ -832,6 +887,49 @@ fn operands(mags: &[i128]) -> Vec<(i128, i128)> {
 
 const BOUNDARY: [i128; 12] = [1, 2, 3, (1 << 15) - 1, 1 << 15, 46337, 46340, 46341, (1 << 16) - 1, 1 << 16, (1 << 30) - 1, 1 << 30];
 
+const LIMIT: i128 = 1 << 30;
+
+/// F(0..) = 0, 1, 1, 2, … and L(0..) = 2, 1, 3, 4, … up to LIMIT
+fn fib_lucas() -> [Vec<i128>; 2] {
+    let grow = |x0: i128, x1: i128| {
+        let mut v = vec![x0, x1];
+        while v[v.len() - 1] + v[v.len() - 2] <= LIMIT {
+            v.push(v[v.len() - 1] + v[v.len() - 2]);
+        }
+        v
+    };
+    [grow(0, 1), grow(2, 1)]
+}
+
+/// Operands with long Euclidean chains: every raw pair (±s·u, t·v) with u in {F(i), L(i)}, v in {F(j), L(j)},
+/// i, j >= 1, |i - j| <= 1 (not the same element twice), (s, t) in `scales`, both components <= 2^30.
+/// Denominators are positive here: the sign of the denominator is the business of box and boundary.
+fn chain_operands(scales: &[(i128, i128)]) -> Vec<(i128, i128)> {
+    let seqs = fib_lucas();
+    let mut set = BTreeSet::new();
+    for (x, xs) in seqs.iter().enumerate() {
+        for (y, ys) in seqs.iter().enumerate() {
+            for i in 1..xs.len() {
+                for j in i.saturating_sub(1).max(1)..=(i + 1).min(ys.len() - 1) {
+                    if x == y && i == j {
+                        continue;
+                    }
+                    for &(s, t) in scales {
+                        let (n, d) = (s * xs[i], t * ys[j]);
+                        if n <= LIMIT && d <= LIMIT {
+                            set.insert((n, d));
+                            set.insert((-n, d));
+                        }
+                    }
+                }
+            }
+        }
+    }
+    let mut v: Vec<(i128, i128)> = set.into_iter().collect();
+    v.sort_by_key(|&(a, b)| key_of(&[a, b], 0));
+    v
+}
+
 fn case_text(c: &[i128]) -> String {
     if c.len() == 1 {
         return c[0].to_string();
@@ -862,7 +960,7 @@ fn confirm(v: &Value) -> Result<(), String> {
     if case.len() != fam.arity() {
         bad("wrong number of integers for this family");
     }
-    if case.iter().any(|x| x.abs() > (1 << 30)) || case.iter().skip(1).step_by(2).any(|&d| d == 0) {
+    if case.iter().any(|x| x.abs() > LIMIT) || case.iter().skip(1).step_by(2).any(|&d| d == 0) {
         bad("case outside the engine's input space (|value| <= 2^30, denominators non-zero)");
     }
     match dispatch(ty, fam, &case) {
@@ -896,8 +994,10 @@ fn sample<T: Int>(space: &str, a: i128, b: i128, c: i128, d: i128) -> Value {
     json!({"space": space, "type": T::NAME, "raw": case_text(&[a, b, c, d]), "observed": r.unwrap_or_else(|m| json!(format!("panicked: {m}")))})
 }
 
-fn run_type<T: Int>(box_ops: &[(i128, i128)], bnd_ops: &[(i128, i128)], vals: &[(i128, i128)]) -> [Acc; 3] {
-    [run_pairs::<T>(box_ops, "box", true), run_pairs::<T>(bnd_ops, "boundary", false), run_triples::<T>(vals)]
+const SPACES: [&str; 4] = ["box", "boundary", "chains", "triples"];
+
+fn run_type<T: Int>(box_ops: &[(i128, i128)], bnd_ops: &[(i128, i128)], chn_ops: &[(i128, i128)], vals: &[(i128, i128)]) -> [Acc; 4] {
+    [run_pairs::<T>(box_ops, "box", true), run_pairs::<T>(bnd_ops, "boundary", false), run_pairs::<T>(chn_ops, "chains", false), run_triples::<T>(vals)]
 }
 
 fn main() {
@@ -933,10 +1033,31 @@ fn main() {
         }
     }
 
+    // self-tests of the Fibonacci / Lucas tables and of the chain counter (Lamé: consecutive Fibonacci numbers
+    // are the worst case, F(k), F(k+1) takes exactly k iterations of the plain loop)
+    {
+        let [f, l] = fib_lucas();
+        let ok = f.len() == 45
+            && l.len() == 44
+            && f[44] == 701_408_733
+            && l[43] == 969_323_029
+            && (1..l.len()).all(|k| l[k] == f[k - 1] + f[k + 1] && g(f[k], l[k]) <= 2)
+            && (2..f.len() - 1).all(|k| euclid_steps(f[k], f[k + 1]) == k as u32 && euclid_steps(f[k + 1], f[k]) == k as u32 - 1)
+            && (1..=42).all(|k| euclid_steps(f[k] * l[k], f[k + 1] * l[k + 1]) == 2 * k as u32)
+            && euclid_steps(0, 5) == 1
+            && euclid_steps(5, 0) == 0
+            && euclid_steps(-(1i128 << 100), (1i128 << 100) + 1) == 3;
+        if !ok {
+            run.machinery_failure("Fibonacci/Lucas table or Euclidean chain counter self-test failed");
+        }
+    }
+
     let mags: Vec<i128> = (1..=bound).collect();
     let box_ops = operands(&mags);
     let bnd_ops = operands(&BOUNDARY);
-    for &(a, b) in box_ops.iter().chain(bnd_ops.iter()) {
+    let scales: &[(i128, i128)] = args.tier.pick(&[(1, 1)][..], &[(1, 1), (1, 2), (2, 1)][..]);
+    let chn_ops = chain_operands(scales);
+    for &(a, b) in box_ops.iter().chain(bnd_ops.iter()).chain(chn_ops.iter()) {
         let (n, d) = (a * b.signum(), b.abs());
         let (f, c) = (floor_ref(a, b), ceil_ref(a, b));
         let ok = f * d <= n && n < (f + 1) * d && (c - 1) * d < n && n <= c * d;
@@ -954,19 +1075,22 @@ fn main() {
         }
     }
 
-    let accs: [[Acc; 3]; 3] = [run_type::<i32>(&box_ops, &bnd_ops, &vals), run_type::<i64>(&box_ops, &bnd_ops, &vals), run_type::<i128>(&box_ops, &bnd_ops, &vals)];
+    let accs: [[Acc; 4]; 3] = [
+        run_type::<i32>(&box_ops, &bnd_ops, &chn_ops, &vals),
+        run_type::<i64>(&box_ops, &bnd_ops, &chn_ops, &vals),
+        run_type::<i128>(&box_ops, &bnd_ops, &chn_ops, &vals),
+    ];
 
     // hash spread over the distinct values of the box (coverage only; nothing is demanded of it)
     let hashes: BTreeSet<u64> = vals.iter().filter_map(|&(a, b)| catch(|| hash_of(&rat::<i64>(a, b))).ok()).collect();
 
     // ---- evidence
-    let spaces = ["box", "boundary", "triples"];
     let mut total = Acc::new();
     let mut by = serde_json::Map::new();
     for (ti, per_type) in accs.iter().enumerate() {
         let mut o = serde_json::Map::new();
         for (si, acc) in per_type.iter().enumerate() {
-            o.insert(spaces[si].to_string(), acc.to_json());
+            o.insert(SPACES[si].to_string(), acc.to_json());
             let mut a = acc.clone();
             a.results.clear();
             total = total.merge(a);
@@ -986,6 +1110,15 @@ fn main() {
     run.cov("box_distinct_hashes_of_distinct_values", hashes.len() as u64);
     run.cov("boundary_magnitudes", BOUNDARY.iter().map(|&m| m as i64).collect::<Vec<i64>>());
     run.cov("boundary_operands_per_type", bnd_ops.len() as u64);
+    run.cov("chain_operands_per_type", chn_ops.len() as u64);
+    run.cov("chain_scales", scales.iter().map(|&(s, t)| format!("{s}/{t}")).collect::<Vec<String>>());
+    {
+        let mut o = serde_json::Map::new();
+        for (ti, per_type) in accs.iter().enumerate() {
+            o.insert(TYPE_NAMES[ti].to_string(), json!(per_type[2].chain_max.iter().max()));
+        }
+        run.cov("max_euclid_steps_by_type", Value::Object(o));
+    }
     let mut famtot = serde_json::Map::new();
     for f in Fam::all() {
         famtot.insert(f.name(), json!(total.evals[f.idx()]));
@@ -996,7 +1129,7 @@ fn main() {
         "rule",
         format!(
             "for each of i32, i64, i128: (box) every ordered pair of operands new(a,b), new(c,d) with a,b,c,d in [-{bound},{bound}], b,d != 0; (boundary) every ordered pair of operands \
-             with numerators in {{0}} u +-S and denominators in +-S, S = boundary_magnitudes; (triples) every ordered triple of the {n} distinct values of the box, each built by new from its \
+             with numerators in {{0}} u +-S and denominators in +-S, S = boundary_magnitudes; (chains) every ordered pair of operands new(+-s*u, t*v) with u in {{F(i), L(i)}}, v in {{F(j), L(j)}}              (Fibonacci and Lucas numbers, i, j >= 1, |i - j| <= 1, u and v not the same element), (s,t) in chain_scales, both components <= 2^30 -- neighbouring Fibonacci/Lucas numbers are the worst              case of Euclid's algorithm, and sums/products of such fractions (F(k)/F(k+1) * L(k)/L(k+1) = F(2k)/F(2k+2)) hand norm pairs whose remainder chain is far longer than for box or boundary              operands: longest_euclid_chain_handed_to_norm (counted by the reference with the plain remainder loop on the exact un-normalised result) must exceed the bit width of i32 and of i64              through each of new(i32 only) + - * /, checked at run time; (triples) every ordered triple of the {n} distinct values of the box, each built by new from its \
              lowest-terms positive-denominator raw pair (cmp reads only the two fields, so other raw spellings of the same value are the same object). Per operand: new, neg, floor, ceil, Display \
              (new_int when b = 1); per pair: + - * / each as `x op y`, `x op &y`, `x op= &y`, `x op= y`, ==/!=, Hash (only when numerically equal), cmp, partial_cmp, antisymmetry. \
              `evaluations` counts executions of the real code compared with the i128 reference (triples counted separately). A case is skipped (counted) when an exact intermediate the \
@@ -1025,6 +1158,8 @@ fn main() {
     run.sample(sample::<i64>("boundary", -(1 << 30), (1 << 30) - 1, 46337, -(1 << 15)));
     run.sample(sample::<i32>("boundary", 46340, -3, -46340, 2));
     run.sample(sample::<i32>("boundary", 46341, 1, 1, 46341));
+    run.sample(sample::<i64>("chains", 267_914_296, 433_494_437, -599_074_578, 969_323_029)); // F(42)/F(43), -L(42)/L(43)
+    run.sample(sample::<i32>("chains", 4181, 6765, 9349, 15127)); // F(19)/F(20), L(19)/L(20)
 
     // ---- violations: per family the simplest failing case over all types and spaces
     for f in total.first.iter().flatten() {
@@ -1032,13 +1167,19 @@ fn main() {
         let sig = format!("{}:{}:{}", f.fam.name(), TYPE_NAMES[ti], case_text(case));
         let replay = json!({"family": f.fam.name(), "type": TYPE_NAMES[ti], "space": f.space, "case": case.iter().map(|&x| x as i64).collect::<Vec<i64>>()});
         let n = total.failed[f.fam.idx()];
-        run.violation(Violation::new(sig, format!("{} [{} mismatching evaluations in family {}; this is the simplest]", f.summary, n, f.fam.name()), replay));
+        let per_type: Vec<String> =
+            accs.iter().enumerate().map(|(ti, a)| format!("{} {}", TYPE_NAMES[ti], a.iter().map(|x| x.failed[f.fam.idx()]).sum::<u64>())).collect();
+        run.violation(Violation::new(
+            sig,
+            format!("{} [{} mismatching evaluations in family {} ({}); this is the simplest]", f.summary, n, f.fam.name(), per_type.join(", ")),
+            replay,
+        ));
     }
 
     // ---- non-vacuity self-checks (all on reference-derived counters, so they hold with or without violations)
     for (ti, per_type) in accs.iter().enumerate() {
         let ty = TYPE_NAMES[ti];
-        let (bx, bd, tr) = (&per_type[0], &per_type[1], &per_type[2]);
+        let (bx, bd, ch, tr) = (&per_type[0], &per_type[1], &per_type[2], &per_type[3]);
         if bound <= 1000 && (bx.total_skipped() != 0 || tr.total_skipped() != 0) {
             run.machinery_failure(&format!("{ty}: cases of the small box were skipped as out of domain"));
         }
@@ -1068,10 +1209,24 @@ fn main() {
                 }
             }
             _ => {
-                if bd.total_skipped() != 0 {
-                    run.machinery_failure(&format!("{ty}: boundary cases with |values| <= 2^30 were skipped as overflowing"));
+                if bd.total_skipped() != 0 || ch.total_skipped() != 0 {
+                    run.machinery_failure(&format!("{ty}: boundary or chain cases with |values| <= 2^30 were skipped as overflowing"));
                 }
             }
+        }
+        // the chain family must really reach chains longer than one step per bit of the narrow types, through
+        // every operator (and through `new` itself for i32); i128 sees the same cases as i64 (nothing skipped)
+        let need: u32 = if ty == "i32" { 32 } else { 64 };
+        for (i, n) in CHAIN_ENTRY.iter().enumerate() {
+            if (i > 0 || ty == "i32") && ch.chain_max[i] <= need {
+                run.machinery_failure(&format!("{ty}: the longest Euclidean chain reached through `{n}` on the chain family is {} steps, not more than {need}", ch.chain_max[i]));
+            }
+            if ch.chain_max[i] < bx.chain_max[i].max(bd.chain_max[i]) {
+                run.machinery_failure(&format!("{ty}: the chain family has shorter chains through `{n}` than box/boundary"));
+            }
+        }
+        if ty == "i32" && (ch.total_skipped() == 0 || ch.chain_over[0] == 0) || ty != "i32" && ch.chain_over[1] == 0 {
+            run.machinery_failure(&format!("{ty}: chain family: expected overflow skips for i32 and evaluated calls with chains over the bit width"));
         }
     }
     run.finish(&confirm)
